@@ -33,6 +33,10 @@ def run(ctx):
     d_lv = maintables.rule_eval_flow(ctx, {"last-value": "C18-last-value", "incremental": "C18-earlier-forms", "stop-at-first": "C18-earlier-forms",
                                             "state-kept": "C18-definitions-intact"})
     ctx.guarded("C18-last-value", d_lv, lambda: c17.last_value_rule(ctx, fb, "C18-last-value"))
+    # "nothing for a definition": the statement evaluator yields no value for (define x E) — also when x is bound already (a
+    # redefinition in a later submission, of a name of the standard library) — and binds x once
+    from . import evaltables as _et18
+    _et18.rule_definition_statement(ctx, "C18-last-value")
 
     # ------------------------------------------------------------------ C18-agreement
     ctx.rule("C18-agreement", "the completeness test agrees with the reader about which parentheses count")
